@@ -13,6 +13,7 @@ All theorems quantify over every initial process, every history and every operat
 -/
 import DarsiaModel.Stateful
 import DarsiaModel.SolverArith
+import DarsiaModel.Anderson
 import DarsiaProofs.Stateful
 namespace Darsia.C16
 open Darsia Darsia.Stateful
@@ -104,6 +105,31 @@ theorem h1_result_stateless (env : Nat → Option Arr) (w0 w0' : World) (e : w0'
       = evalH1 env dim omega
         (match (regularise true false w0' true s omega mu dim channels).2 with | .solves rs => rs | _ => []) img := by
   rw [regulariser_stateless w0 w0' e h true s omega mu dim channels]
+
+/-! ### Anderson acceleration: arithmetic (model `DarsiaModel.Anderson` of builder c; the least-squares solve is a parameter) -/
+
+/-- a fixed-point iteration `x ← AA(g(x), g(x) − x, k)` for `k = start, start+1, …` -/
+def aaRun (depth : Nat) (restart : Option Nat) (lstsq : List Anderson.V → Anderson.V → List Rat) (gfun : Anderson.V → Anderson.V) :
+    Nat → Nat → Anderson.St → Anderson.V → Anderson.V
+  | _, 0, _, x => x
+  | k, n + 1, st, x =>
+    let r := Anderson.call depth restart lstsq st (gfun x) (Anderson.vsub (gfun x) x) k
+    aaRun depth restart lstsq gfun (k + 1) n r.2 r.1
+
+/-- the RESULT of an accelerated run that starts at iteration 0 does not depend on the history matrices and stored
+iterates the object was left with (whatever they are): the first call resets them before anything is read -/
+theorem anderson_run_result_stateless (depth : Nat) (restart : Option Nat) (lstsq : List Anderson.V → Anderson.V → List Rat)
+    (gfun : Anderson.V → Anderson.V) (n : Nat) (st st' : Anderson.St) (x : Anderson.V) :
+    aaRun depth restart lstsq gfun 0 n st x = aaRun depth restart lstsq gfun 0 n st' x := by
+  cases n with
+  | zero => rfl
+  | succ n =>
+    have h : ∀ s : Anderson.St, Anderson.call depth restart lstsq s (gfun x) (Anderson.vsub (gfun x) x) 0
+        = Anderson.call depth restart lstsq (Anderson.reset depth) (gfun x) (Anderson.vsub (gfun x) x) 0 := by
+      intro s
+      have hi : Anderson.inner restart 0 = 0 := by cases restart <;> simp [Anderson.inner]
+      simp only [Anderson.call, hi, if_true]
+    simp only [aaRun, h st, h st']
 
 /-! ### the code before the fixes does not have the property -/
 
